@@ -160,11 +160,16 @@ HARNESSES += [
 ]
 
 PROPERTY_INFO = {'C04': {'level': 'model_checking',
-         'explanation': 'bounded symbolic execution (CBMC) of the real export gates and command-file parsing lowered from /repo, '
-                        'driven from declaration objects with symbolic gate inputs',
-         'outside': 'how _vis and _source get stamped on declarations by the grammar and the preprocessor (__published, '
-                    '__begin_publish, include graph); define_method member filters; gates that need the type graph '
-                    '(scan_function, scan_typedef_type, scan_element) beyond what is listed',
-         'assumptions': []}}
+         'explanation': 'bounded symbolic execution (CBMC) of the real export gates, of define_struct_type (with the real '
+                        'involves_unpublished / involves_protected) on a nested class built with the real cppparser constructors, '
+                        'of the source classification of included files (find_include over a table-driven file system) and of '
+                        'the command-file parsing, all lowered from /repo and driven with symbolic gate inputs',
+         'outside': 'how _vis gets stamped on declarations by the grammar and the preprocessor (__published, '
+                    '__begin_publish); _explicit_files / the command-line handling that makes a named file S_local; '
+                    'define_method member filters; the get_type bookkeeping around define_struct_type (forcetype / ignoretype '
+                    'lookup by name, typedef unwrapping); gates that need the type graph (scan_function, scan_typedef_type, '
+                    'scan_element) beyond what is listed',
+         'assumptions': ['c04_struct_define: CPPType::new_type (uniquing) and TypeManager::resolve_type are the identity; the '
+                         'class scope is filled the way CPPScope::add_declaration / handle_declaration leave it']}}
 
 NOT_APPLICABLE = {}
